@@ -338,9 +338,14 @@ def filter_mc_sharemem(filename, step_size, box_size, cores, shape,
     logging.info("using {0} cores".format(cores))
     logging.info("using {0} stripes".format(nslice))
 
+    # all stripes have to be resident at the same time (they synchronise
+    # at a barrier) so there can't be more stripes than there are workers
+    nslice = min(nslice, cores)
+
     if nslice > 1:
         # box widths should be multiples of the step_size, and not zero
-        width_y = int(max(img_y/nslice/step_size[1], 1) * step_size[1])
+        # round up so that no more than nslice stripes are created
+        width_y = int(np.ceil(img_y/nslice/step_size[1])) * step_size[1]
 
         # locations of the box edges
         ymins = list(range(0, img_y, width_y))
